@@ -578,7 +578,7 @@ func ruleWhere(c *Ctx) {
 		g := p.G(fn)
 		var lvl ssa.Value
 		for _, pm := range fn.Params {
-			if pm.Name() == "level" {
+			if pm == fn.Params[1] { // (ls, level, format, args...)
 				lvl = pm
 			}
 		}
@@ -617,7 +617,7 @@ func ruleWhere(c *Ctx) {
 // whether EndPc is inclusive; (c) StartPc is the index of the next instruction.
 func ruleScopes(c *Ctx) {
 	const R = "R17-scope"
-	c.floor(R, 3)
+	c.floor(R, 4)
 	p := c.P
 	endF := p.Field("lua", "DbgLocalInfo", "EndPc")
 	startF := p.Field("lua", "DbgLocalInfo", "StartPc")
@@ -712,5 +712,31 @@ func ruleScopes(c *Ctx) {
 	}
 	if nEnd == 0 {
 		c.und(R, "EndPc:writer", "-", "no store to DbgLocalInfo.EndPc found")
+	}
+	// the query point: the instruction being executed is Pc-1 (Pc is advanced before dispatch), the same
+	// convention where() uses for the line
+	if fl := c.need(R, "lua", "(*LState).findLocal"); fl != nil {
+		ln := p.Fn("lua", "(*LFunction).LocalName")
+		pcF := p.Field("lua", "callFrame", "Pc")
+		calls := callsTo(fl, ln)
+		okc := len(calls) > 0
+		var site ssa.Instruction
+		for _, cl := range calls {
+			site = cl
+			b, ok := stripConv(cl.Call.Args[2]).(*ssa.BinOp)
+			if !ok || b.Op != token.SUB {
+				okc = false
+				continue
+			}
+			k, isK := constInt(b.Y)
+			if _, isPc := loadsField(b.X, pcF); !isPc || !isK || k != 1 {
+				okc = false
+			}
+		}
+		pos := p.pos(fl.Pos())
+		if site != nil {
+			pos = p.ipos(site)
+		}
+		c.check(okc, R, "findLocal:queries-at-Pc-1", pos, "variables are looked up at the instruction being executed (Pc-1)", "findLocal asks LocalName about a pc other than Pc-1 (the instruction being executed): every scope appears to end one instruction early (or start late) — a call that is the last instruction of a block no longer sees that block's locals")
 	}
 }
